@@ -52,6 +52,7 @@ CLAUSE_PROPERTY = {
     "MB_SameSlots": "C07",
     "MB_Labels": "C14",
     "MB_ModesOK": "C14",
+    "MB_Boundaries": "C16",
     "SW_PropCoherent": "C07",
     "SW_Update": "C07",
     "SW_Evals": None,
@@ -336,6 +337,8 @@ class Recorder:
             "target": _R("ess", cfgo.ess_ratio * cfgo.n_particles * (1 - RTOL)),
             "nTotal": _R("ess", (self.requested_n_total if self.requested_n_total is not None else core.n_total) * (1 - RTOL)),
             "one": _R("beta", 1.0),
+            "periodic": sorted(int(i) for i in (cfgo.periodic or [])),
+            "reflective": sorted(int(i) for i in (cfgo.reflective or [])),
             "minSweeps": int(cfgo.n_steps * cfgo.n_dim),
             "maxSweeps": int(max(cfgo.n_max_steps, cfgo.n_steps) * cfgo.n_dim),
         }
@@ -541,7 +544,9 @@ class Recorder:
                             break
                 modes.append(hit)
         self._emit("MutateBegin", slots=self.slots(run.u, run.x, run.logl, run.blobs, run.assignments), modes=modes,
-                   modesOK=self._mode_info(rms))
+                   modesOK=self._mode_info(rms),
+                   periodic=sorted(int(i) for i in (run.periodic if run.periodic is not None else [])),
+                   reflective=sorted(int(i) for i in (run.reflective if run.reflective is not None else [])))
         self._mcmc_mark = self.evals
         self._sweep_mark = self.evals
 
